@@ -526,8 +526,12 @@ class Interp:
                     raise Unsupported("vector write with a stale loop index", node)
                 base.elem = value
                 return
+            if isinstance(key, SVec) and is_z3(key.elem) and z3.is_bool(key.elem):
+                key = SIdx(key)          # v[mask] = ...: a boolean mask selects the positions np.argwhere(mask).flatten() lists
             if isinstance(key, SIdx):
-                if isinstance(value, SSel) and value.idx is key:
+                same_set = isinstance(value, SSel) and (value.idx is key or value.idx.mask is key.mask or
+                                                        (is_z3(value.idx.mask.elem) and is_z3(key.mask.elem) and value.idx.mask.elem.eq(key.mask.elem)))
+                if same_set:
                     newv = value.vec.elem
                 elif isinstance(value, SSel):
                     raise Unsupported("fancy assignment between different index sets", node)
